@@ -11,7 +11,7 @@ history length.
   total order with its derived relations.  For `double` elements (NaN unordered) the header's relations equal
   `std::pair`'s exactly outside the input class `Spec.unorderedPair` and differ on every input inside it.
   Tuple `==` is list equality for every arity, 0 included.
-* tuple_cat of one or more tuples is their concatenation; no read out of range.
+* tuple_cat of any number of tuples is their concatenation; no read out of range.
 * calls: `invoke`, `reference_wrapper`, `function_ref`, `bind_front`, `not_fn`, `apply` never fail and their
   outcome satisfies the predicate `Spec.CalledOnce`: one log entry, for the wrapped target, called through the
   prescribed object category with the given arguments (a bound `reference_wrapper` stays a wrapper), result handed
@@ -260,11 +260,12 @@ end rel
 
 /-! ## tuple_cat / apply -/
 
-/-- `tuple_cat` of one or more tuples is their concatenation (all elements, in order); no element read
-    leaves its tuple.  (`tuple_cat()` with no argument does not exist in the header.) -/
-theorem tuple_cat_eq (t : List Int) (ts : List (List Int)) :
-    tupleCat (t :: ts) = .ok (Spec.tupleCat (t :: ts)) := by
-  simp [tupleCat, catGo_eq, Spec.tupleCat]
+/-- `tuple_cat` of any number of tuples (none included: the empty tuple) is their concatenation (all elements, in order);
+    no element read leaves its tuple.  (Formerly stated for one or more tuples: `tuple_cat()` did not exist in the header.) -/
+theorem tuple_cat_eq (ts : List (List Int)) : tupleCat ts = .ok (Spec.tupleCat ts) := by
+  cases ts with
+  | nil => rfl
+  | cons t ts => simp [tupleCat, catGo_eq, Spec.tupleCat]
 
 /-! ## calls
 
